@@ -32,7 +32,8 @@ type writerSpec struct {
 	Late  bool       `json:"late,omitempty"` // starts only after a Close call has returned
 }
 type cfg struct {
-	QCap    int          `json:"qcap"` // 0 = synchronous channel
+	Starve  bool         `json:"starve,omitempty"` // the schedule may let Close poll any number of times in a row (sender starved)
+	QCap    int          `json:"qcap"`             // 0 = synchronous channel
 	Until   bool         `json:"until"`
 	Writers []writerSpec `json:"writers"`
 	Closers []int        `json:"closers"` // error ids; 0 = Close(nil)
@@ -58,6 +59,7 @@ func segments(buf []byte, n int) [][]byte {
 var kindCoq = []string{"KWrite1", "KWritev", "KCtxWrite1", "KCtxWritev", "KWriter"}
 
 type callObs struct {
+	ErrID    int `json:"errid"` // identity of the error a failed call reported: id of an idErr, 0 = the channel-closed sentinel, -1 other
 	W, K     int
 	Cid      int
 	Begin    int // scheduler step at which the call began / returned
@@ -81,6 +83,7 @@ type obs struct {
 	TClosed    int
 	Parked     []string
 	MaxQ       int
+	Winner     int    // id of the Close call that took effect (-1: closed from inside, -2: never closed)
 	Stuck      string // a goroutine blocked although the scheduler's enabling condition said it could proceed
 	viol       []hx.Violation
 }
@@ -171,6 +174,12 @@ func runCfg(c cfg, choose func(step int, en []*sched.Thread, last *sched.Thread)
 			if ws.Late {
 				s.Yield("wait-close", func() bool { return closeReturned })
 			}
+			defer func() {
+				if e := recover(); e != nil {
+					o.viol = append(o.viol, hx.Violation{Property: "C10", What: "a write call failed with a runtime fault (pooled buffer of the wrong size class / shared with another payload): " + fmt.Sprint(e), Signature: "write-fault"})
+					o.viol = append(o.viol, hx.Violation{Property: "C01", What: "a write call failed with a runtime fault: " + fmt.Sprint(e), Signature: "write-fault"})
+				}
+			}()
 			for k, cs := range ws.Calls {
 				co := &callObs{W: w, K: k, Begin: s.NStep}
 				o.Calls = append(o.Calls, co)
@@ -199,6 +208,13 @@ func runCfg(c cfg, choose func(step int, en []*sched.Thread, last *sched.Thread)
 					_, err = ch.Writer().Write(buf)
 				}
 				co.Ret, co.Res = s.NStep, classify(err)
+				co.ErrID = -1
+				var ie *idErr
+				if errors.As(err, &ie) {
+					co.ErrID = ie.id
+				} else if errors.Is(err, netty.ErrChannelClosed) {
+					co.ErrID = 0
+				}
 				// C10: the caller reuses its buffer immediately
 				for i := range buf {
 					buf[i] = 0xEE
@@ -209,9 +225,12 @@ func runCfg(c cfg, choose func(step int, en []*sched.Thread, last *sched.Thread)
 			}
 		})
 	}
+	closerID := map[int]int{}
 	for _, id := range c.Closers {
 		id := id
-		s.Spawn("closer", func() {
+		var cth *sched.Thread
+		cth = s.Spawn("closer", func() {
+			_ = cth
 			if c.Quiet {
 				s.Yield("wait-writers", func() bool { return writersLeft == 0 })
 			}
@@ -227,6 +246,7 @@ func runCfg(c cfg, choose func(step int, en []*sched.Thread, last *sched.Thread)
 				o.viol = append(o.viol, hx.Violation{Property: "C05", What: "IsActive() is true after a Close call returned", Signature: "isactive"})
 			}
 		})
+		closerID[cth.Index] = id
 	}
 	if c.Parent {
 		s.Spawn("parent", func() { cancelParent() })
@@ -248,15 +268,32 @@ func runCfg(c cfg, choose func(step int, en []*sched.Thread, last *sched.Thread)
 	var last *sched.Thread
 	step := 0
 	s.StuckAfter = 1500 * time.Millisecond
+	s.Unfair = c.Starve
+	s.MaxSteps = 20000
+	o.Winner = -2
+	noteWinner := func() {
+		if o.Winner == -2 && last != nil && netty.VerifState(ch).Closed {
+			if id, ok := closerID[last.Index]; ok {
+				o.Winner = id
+			} else {
+				o.Winner = -1 // closed from inside (sender failure)
+			}
+		}
+	}
 	s.Run(func(en []*sched.Thread) *sched.Thread {
+		noteWinner()
 		k := choose(step, en, last)
 		step++
 		o.Picks = append(o.Picks, k)
 		last = en[k]
 		return en[k]
 	})
+	noteWinner()
 	if s.Stuck != nil {
 		o.Stuck = s.Stuck.Name + "@" + s.Stuck.Point
+	}
+	if s.Aborted {
+		o.Stuck = "step bound exceeded (a goroutine polls for ever)"
 	}
 	o.Trace = s.Trace
 	o.Log = tr.Snapshot()
@@ -409,6 +446,13 @@ func check(c cfg, o *obs, meta *hx.Meta) {
 		}
 		if cl.Res == "other" {
 			meta.Violate(hx.Violation{Property: "C11", What: "write returned an unexpected error", Signature: "other-error", Replay: rep()})
+		}
+	}
+	// C05: the inactive event carries the error of the Close call that took effect.  (C11 only demands a
+	// non-nil error from writes on a closed channel, not a particular one: no identity check there.)
+	if o.Winner >= 0 {
+		if len(o.Inactive) == 1 && o.Inactive[0] != o.Winner {
+			meta.Violate(hx.Violation{Property: "C05", What: fmt.Sprintf("the inactive event carries error identity %d, the Close call that took effect was given %d", o.Inactive[0], o.Winner), Signature: "wrong-inactive-error", Replay: rep()})
 		}
 	}
 	// no stranded writes / deadlock at quiescence
